@@ -757,3 +757,47 @@ def r3h(ctx: Ctx) -> list[Ob]:
             )
         )
     return out
+
+
+
+# ------------------------------------------------------------------------------------------ R3i
+def r3i(ctx: Ctx) -> list[Ob]:
+    """R3i -- an optional hyper-parameter is absent when it is ``None``, not when it is falsy.
+
+    The folder and the optimiser rebuild a module from ``config``.  A ``config`` (or ``fold_settings``)
+    that includes an optional numeric attribute under a *truthiness* test (``if self.vmin:``) drops a
+    bound of exactly 0.0: the rebuilt module silently loses it (``Clamp(vmin=0.0, vmax=1.0)`` folds to
+    ``clamp(x, max=1.0)``).  In every ``config`` / ``fold_settings`` / ``params`` of the torch-side
+    modules, a branch condition that reads a self attribute must be a None-test (or a comparison),
+    not the bare attribute."""
+    out: list[Ob] = []
+    for c in ctx.repo.classes.values():
+        if not c.module.name.startswith("cirkit.backend.torch"):
+            continue
+        for mname in ("config", "fold_settings", "params", "sub_modules"):
+            m = c.methods.get(mname)
+            if m is None:
+                continue
+            tests = [n.test for n in walk_no_nested(m.node) if isinstance(n, (ast.If, ast.IfExp))]
+            if not tests:
+                continue
+            for t in tests:
+                parts = t.values if isinstance(t, ast.BoolOp) else [t]
+                for p_ in parts:
+                    q = p_.operand if isinstance(p_, ast.UnaryOp) and isinstance(p_.op, ast.Not) else p_
+                    a = is_self_attr(q)
+                    site = f"{c.module.relpath}:{t.lineno}"
+                    if a is not None:
+                        init = ctx.repo.lookup(c, "__init__")
+                        ann = ""
+                        if init is not None:
+                            for prm in init.params:
+                                if prm.name == a.lstrip("_") and prm.annotation is not None:
+                                    ann = unparse(prm.annotation)
+                        if ann in ("bool",):
+                            out.append(ok("R3i", m.qualname, f"optional:{a}", "a boolean flag", site))
+                        else:
+                            out.append(viol("R3i", m.qualname, f"optional:{a}", f"`{unparse(t)}` includes self.{a} in {mname} only when it is truthy: a value of exactly 0 (annotation `{ann or '?'}`) is treated as absent, and the module rebuilt from {mname} by the folder / optimiser loses it", site))
+                    else:
+                        out.append(ok("R3i", m.qualname, f"optional:{unparse(q)[:30]}", "an explicit test (None-ness / comparison)", site, nontrivial=False))
+    return out
